@@ -120,6 +120,26 @@ def schedule(rng, h, secs, style, capchg=False, cancel=False):
     h.ops.append("dack:1000")
 
 
+def cut_deliveries(rng, ops, inner=True):
+    """Every `denc:<k>` but the last (the drain) becomes, with probability 0.7, a delivery in chunks: `denc:<k>@<j>.<m>,…`
+    (j = instruction of that delivery, m = 0 boundary in front of it, m >= 1 inside it).  A cut inside an instruction makes
+    the real decoder stop in front of it (D-20f); the instructions left are handed over again by the next `denc`, at the
+    latest by the whole drain.  With probability 0.3 a cut drain is put in front of the whole one.
+    `inner=False`: cuts at instruction boundaries only (must change nothing)."""
+    def cuts():
+        n = rng.choice([1, 1, 2, 3])
+        return ",".join("%d.%d" % (rng.choice([0, 0, 1, 1, 2, 3, 5, 8]), rng.choice([0, 1, 1, 2, 3, 7]) if inner else 0)
+                        for _ in range(n))
+    idx = [i for i, o in enumerate(ops) if o.startswith("denc:")]
+    out = list(ops)
+    for i in idx[:-1]:
+        if rng.random() < 0.7:
+            out[i] = "%s@%s" % (ops[i], cuts())
+    if idx and rng.random() < (0.3 if inner else 1.0):
+        out.insert(idx[-1], "%s@%s" % (ops[idx[-1]], cuts()))
+    return out
+
+
 STYLES = ["sync", "blockfirst", "noack", "late", "trickle", "random", "random", "random"]
 
 
@@ -142,7 +162,11 @@ class C20(Prop):
                   "(HeaderPrefix::get . new = id in the RFC window; agreement with the RFC 9204 4.5.1.1 pseudo-code); ack_delivery_total "
                   "(in plain histories Encoder::on_decoder_recv accepts whatever the decoder wrote, in every batching: no UnknownStreamId, "
                   "no InvalidTrackingCount, no panic site) and plain_history_total (a history without capacity change and cancellation "
-                  "never ends in an error: the hypothesis `run s0 evs = some s` of the other theorems excludes nothing there)")
+                  "never ends in an error: the hypothesis `run s0 evs = some s` of the other theorems excludes nothing there); "
+                  "cut_delivery_partial (the encoder stream handed over in a Buf of several chunks is a whole delivery of a prefix of the "
+                  "instructions, and of all of them when no cut lies inside an instruction) with the decide-witness D20f (an instruction "
+                  "crossing a chunk boundary is never parsed); O20e_blocked_limit_witness (more streams at risk of blocking than the limit: "
+                  "observation, RFC 9204 2.1.2, not in the property's text)")
     level_note = ("trusted: Lean kernel + 3 standard axioms; instruction-level model (byte codecs of stream.rs/block.rs are exercised by the "
                   "correspondence run through the real bytes, not modelled: C15/C11's subject); model tied to the code by differential runs "
                   "of whole histories (real Encoder/Decoder driven through the cfg(hyperium_h3_verif) hook, every emitted instruction and "
@@ -150,7 +174,9 @@ class C20(Prop):
                   "on the failing track_cancel branch, proved unreachable; usize counters are Nat (sizes bounded by 2^30-1 by theorem, "
                   "insert counters assumed < 2^64); static table soundness (find/find_name vs table) by kernel decide on the extracted tables; "
                   "two defects fixed in the repository (D-20a increment > 64, D-20b capacity below referenced entries), two open findings "
-                  "(D-20c, D-20d) outside the property's stated quantifier (capacity changes, stream cancellation)")
+                  "(D-20c, D-20d) outside the property's stated quantifier (capacity changes, stream cancellation), one open finding on the "
+                  "delivery of the encoder stream in a multi-chunk Buf (D-20f); the blocked-stream limit is a parameter of the histories, "
+                  "not a demand of the oracle (reading R-20 / observation O-20e: state mark ~blk<n> compared between code and model, one NOTE per run)")
     rule = ("cases: whole histories `dyn <capacity> <blocked limit> <ops>`: 1..40 field sections over small alphabets (2 names x 3 values; "
             "6 names x 8 values incl. static-table names and exact static matches) plus wide workloads (300 distinct fields) for large "
             "increments; capacities {0,31,33..36,40,68..70,100,102,136,200,340,1000,2210,4096}; blocked limits {0,1,2,100}; stream ids "
@@ -160,7 +186,10 @@ class C20(Prop):
             "Known findings are applied per OP: the model puts `#D-20c` / `#D-20d` on the status token of the deliverBlock whose result the "
             "defect makes wrong (section encoded under another capacity than the decoder's; encoder evicted unreceived entries and the "
             "section's Required Insert Count is beyond the reconstruction window; later deliverBlocks of a stream whose queue a tagged op "
-            "left out of step with the oracle's) and a mismatch is waived only if every mismatching op carries such a tag")
+            "left out of step with the oracle's) and a mismatch is waived only if every mismatching op carries such a tag; every 8th "
+            "history delivers the encoder stream in chunks (`denc:<k>@<j>.<m>,...`: 1..3 cuts per delivery, in front of or inside an "
+            "instruction; every 40th: at instruction boundaries only), the real `on_encoder_recv` gets a Buf whose chunk() ends at the "
+            "next cut and is called twice; `#D-20f` on the status token of a delivery that leaves complete instructions unparsed (`X:stall`)")
     trusted = ["harness-side parser of the encoder stream / header blocks into instruction texts (uses the repository's own prefix_int/"
                "prefix_string decoders, C15)",
                "static table contents (C11's subject) shared by model and oracle; only find/find_name soundness is proved here"]
@@ -192,8 +221,32 @@ class C20(Prop):
             h = Hist(rng, cap, bl)
             schedule(rng, h, workload(rng, n, small, wide), style,
                      capchg=(j % 10 == 7 and not wide), cancel=(j % 10 == 9 and not wide))
+            # every 8th history: the encoder stream reaches the decoder in chunks that cut instructions (bC12);
+            # every 40th: in chunks that end at instruction boundaries
+            if j % 8 == 5:
+                h.ops = cut_deliveries(rng, h.ops, inner=(j % 40 != 5))
             L.append(h.line())
         return L
+
+    def extra(self, tier, rng, ctx):
+        """O-20e: one NOTE per run with the number of histories in which more streams could become blocked than the
+        blocked-stream limit allows (RFC 9204 2.1.2; state mark `~blk<n>`, compared between implementation and model)."""
+        over, worst, first = 0, 0, None
+        small = 0
+        for l, im in zip(ctx["lines"], ctx["impl"]):
+            ns = [int(m) for m in re.findall(r"~blk(\d+)", im)]
+            if ns:
+                over += 1
+                worst = max(worst, max(ns) - int(l.split()[2]))
+                small += l.split()[2] in ("1", "2")
+                if first is None or len(l) < len(first):
+                    first = l
+        msg = ("O-20e (RFC 9204 2.1.2, not part of C20's text): in %d of %d histories more streams could become blocked than "
+               "SETTINGS_QPACK_BLOCKED_STREAMS allows (`~blk<n>`; %d of them with limit 1 or 2; largest excess %d)"
+               % (over, len(ctx["lines"]), small, worst))
+        if first:
+            msg += "; shortest: `%s`" % first
+        return [("note", msg, None)]
 
     # ------------------------------------------------------------------ known findings, per op
     TAG = re.compile(r"#D-[0-9a-z]+")
@@ -257,6 +310,10 @@ class C20(Prop):
         for t in toks:
             if t[:2] in ("E:", "X:", "B:", "A:", "C:", "K:"):
                 kinds.add(t)
+            elif "~blk" in t:
+                kinds.add("~blk")
+                if t.startswith("~2"):
+                    kinds.add(t.split("~blk")[0])
             elif t.startswith("~2"):
                 kinds.add(t)
             elif t.startswith("n=") and ";inc=" in t:
@@ -278,6 +335,13 @@ class C20(Prop):
         for i in range(len(ops) - 1, -1, -1):
             out.append(" ".join(head + ops[:i] + ops[i + 1:]))
         for i, o in enumerate(ops):
+            if o.startswith("denc:") and "@" in o:
+                k, cs = o.split("@", 1)
+                out.append(" ".join(head + ops[:i] + [k] + ops[i + 1:]))
+                cl = cs.split(",")
+                for c in range(len(cl)):
+                    if len(cl) > 1:
+                        out.append(" ".join(head + ops[:i] + ["%s@%s" % (k, ",".join(cl[:c] + cl[c + 1:]))] + ops[i + 1:]))
             if o.startswith("enc:"):
                 _, sid, fs = o.split(":", 2)
                 fl = [f for f in fs.split(",") if f]
